@@ -73,6 +73,14 @@ func (f *FSMSnapshot) Persist(sink raft.SnapshotSink) (retError error) {
 		fsmSnapshotErrLogger.Printf("failed to persist %s snapshot %s: %v", f.Type, sink.ID(), err)
 		return err
 	}
+	// Install the snapshot before finalizing. The Finalizer records that the database
+	// file matches the newest snapshot in the store, which is only true once the sink
+	// has been closed successfully. Raft closes the sink again after Persist returns,
+	// which is then a no-op.
+	if err := sink.Close(); err != nil {
+		fsmSnapshotErrLogger.Printf("failed to close sink for %s snapshot %s: %v", f.Type, sink.ID(), err)
+		return err
+	}
 	if f.Finalizer != nil {
 		return f.Finalizer()
 	}
